@@ -1,8 +1,12 @@
 (* The whole-call theorems of C16: for every call (chains of views included), every window, every state,
    the model (a) logs only ranges inside the root region and never reaches undefined behaviour, (b) leaves
    memory untouched when it panics, (c) satisfies the oracle of Oracle/C16Oracle.v. *)
-Require Import V.Base.MachineInt V.Generated.GenBounds V.Model.Buffer V.Proofs.BufferGuard V.Proofs.BufferProofs
-               V.Oracle.C16Oracle.
+Require Import V.Base.MachineInt.
+Require Import V.Generated.GenBounds.
+Require Import V.Model.Buffer.
+Require Import V.Proofs.BufferGuard.
+Require Import V.Proofs.BufferProofs.
+Require Import V.Oracle.C16Oracle.
 From Coq Require Import ZifyBool.
 Open Scope Z_scope.
 
